@@ -104,6 +104,8 @@ def run(ctx):
                   "fingerprint is %s: it can be 0 (the free-slot marker) or exceed l_fingerprint bits" % why[:200])
         # the l == 64 branch guard
         from ..paths import PathEnumerator
+    from .common import double_hashing_rules
+    double_hashing_rules(ctx, "R07-double-hashing")
     # ---- divisors ----------------------------------------------------------------------------------------
     n_div = 0
     for h in prog.fns.values():
